@@ -1517,6 +1517,21 @@ def run_designs(ck, designs, wide, singles_only=False):
                 ex = ck.cov.setdefault("rejected_examples", [])
                 if len(ex) < 40 and not any(e_["op"] == n.key and e_["error"][:40] == r["error"][:40] for e_ in ex):
                     ex.append({"op": n.key, "expr": n.py, "type": tname(n.ty), "error": (r.get("error_type") or "") + ": " + r["error"][:160]})
+                # not part of the promise (a compile error, no logic is emitted): a tree without any run-time operand
+                # (constant folding is property C09's), and a CONSTANT vector object next to a run-time Integer
+                # (`Signed[8](-80) >= self.n`: uniformly not implemented for comparisons and arithmetic alike, while
+                # `self.s >= self.n` and `-80 >= self.n` are; recorded under coverage.over_rejected_outside_promise)
+                leaves = [x for x in walk(n) if not x.kids]
+                no_runtime = not any("XIn" in x.cq for x in leaves)
+                const_vec_with_rt_int = (any(x.cq.startswith("(XConst") and x.ty[0] in ("u", "s", "bv") for x in n.kids)
+                                         and any("XIn" in x.cq and x.ty[0] == "int" for x in n.kids))
+                if not n.kids:      # a replayed node carries its term only
+                    no_runtime = "(XIn" not in n.cq
+                    const_vec_with_rt_int = (re.search(r"\(XConst K(S|U|BV) ", n.cq) is not None and "(Ty KInt" in n.cq
+                                             and re.search(r"\(XIn @\w+@ \(Ty K(U|S|BV)", n.cq) is None)
+                if no_runtime or const_vec_with_rt_int:
+                    ck.hist("over_rejected_outside_promise", ("constant-only tree: " if no_runtime else "constant vector with run-time Integer: ") + n.key)
+                    continue
                 if (n.key, "rej") not in seen_fail and PROMISED_REJECT.match(n.key) and (not any(k.kids for k in n.kids) or "promised" in n.dims):
                     seen_fail.add((n.key, "rej"))
                     ck.obligation(False)
